@@ -64,6 +64,16 @@ type TrackPool struct {
 	Events  []PoolEvent
 	Faults  []string
 	NoReuse bool // never hand buffers back (forces allocation path)
+	held    map[int]int
+	nev     map[int]int
+}
+
+func (p *TrackPool) note(conn, delta int) {
+	if p.held == nil {
+		p.held, p.nev = map[int]int{}, map[int]int{}
+	}
+	p.held[conn] += delta
+	p.nev[conn]++
 }
 
 type poolFront struct {
@@ -79,6 +89,7 @@ func (f *poolFront) Get() interface{} {
 	defer p.mu.Unlock()
 	if len(p.free) == 0 || p.NoReuse {
 		p.Events = append(p.Events, PoolEvent{Conn: f.conn})
+		p.note(f.conn, 1)
 		return nil
 	}
 	v := p.free[len(p.free)-1]
@@ -93,6 +104,7 @@ func (f *poolFront) Get() interface{} {
 		ptr = &buf[0]
 	}
 	p.Events = append(p.Events, PoolEvent{Conn: f.conn, Ptr: ptr, Len: len(buf), Poison: ok})
+	p.note(f.conn, 1)
 	return v
 }
 
@@ -119,6 +131,7 @@ func (f *poolFront) Put(v interface{}) {
 		buf[i] = poisonByte
 	}
 	p.Events = append(p.Events, PoolEvent{Conn: f.conn, Put: true, Ptr: ptr, Len: len(buf)})
+	p.note(f.conn, -1)
 	p.free = append(p.free, v)
 }
 
@@ -147,18 +160,7 @@ func (p *TrackPool) Audit() {
 func (p *TrackPool) Outstanding(conn int) (held int, events int) {
 	p.mu.Lock()
 	defer p.mu.Unlock()
-	for _, e := range p.Events {
-		if e.Conn != conn {
-			continue
-		}
-		events++
-		if e.Put {
-			held--
-		} else {
-			held++
-		}
-	}
-	return
+	return p.held[conn], p.nev[conn]
 }
 
 func (p *TrackPool) Snapshot() ([]PoolEvent, []string) {
